@@ -285,7 +285,7 @@ CLAIMED = {
          "actions (every chunking / reader block size) and every sequence of ontology and event children of any length: "
          "retained <= 3 + undelivered at every callback, del root[1] never fails, <= 2 elements remain at the end; model "
          "tied to the code by comparing len(root) / index of the delivered element observed inside real callbacks (streams "
-         "up to 3000 children quick, 30000 thorough; pull, pull-from-file, push in several chunkings).",
+         "up to 3000 children quick, 15000 thorough; pull, pull-from-file, push in several chunkings).",
     note=TB + "lxml's tree construction order (children appended at start tag, end events in document order) is the model's "
          "schedule assumption; real process memory is not modelled; foreign top-level elements are outside the quantifier.",
     technique="Coq invariant proof over all schedules + model/implementation correspondence (vm_compute)", ref='5 C19'),
